@@ -176,7 +176,7 @@ def notFoundEffect (s : St) : St × Bool :=
 
 structure Impl where
   s   : St
-  idx : Int        -- `rp.index`
+  pos : Nat        -- `rp.index + 1` (the Go field starts at -1; the model stores it shifted by one)
   deriving DecidableEq, Repr
 
 inductive Out (α : Type) where
@@ -184,20 +184,20 @@ inductive Out (α : Type) where
   deriving DecidableEq, Repr
 
 mutual
-/-- `rp.Next()` -/
+/-- `rp.Next()`: `rp.index++`, then the loop -/
 def implNext (fuel : Nat) (hs : List Handler) (m : Impl) : Out Impl :=
   match fuel with
   | 0 => .fuel
-  | f + 1 => implLoop f hs { m with idx := m.idx + 1 }
-/-- the `for rp.index < len(rp.handlers)` loop -/
+  | f + 1 => implLoop f hs { m with pos := m.pos + 1 }
+/-- `for rp.index < len(rp.handlers) { rp.handlers[rp.index](rp); rp.index++ }` -/
 def implLoop (fuel : Nat) (hs : List Handler) (m : Impl) : Out Impl :=
   match fuel with
   | 0 => .fuel
   | f + 1 =>
-    if 0 ≤ m.idx ∧ m.idx < hs.length then
-      let i := m.idx.toNat
+    if 1 ≤ m.pos ∧ m.pos ≤ hs.length then      -- 0 ≤ index < len
+      let i := m.pos - 1
       match implActs f hs i (hs.getD i []) { m with s := m.s.emit (.enter i) } with
-      | .ok m' => implLoop f hs { m' with s := m'.s.emit (.leave i), idx := m'.idx + 1 }
+      | .ok m' => implLoop f hs { m' with s := m'.s.emit (.leave i), pos := m'.pos + 1 }
       | r => r
     else .ok m
 /-- the body of handler `i` -/
@@ -211,11 +211,12 @@ def implActs (fuel : Nat) (hs : List Handler) (i : Nat) (acts : List Act) (m : I
       match implNext f hs m with
       | .ok m' => implActs f hs i as m'
       | r => r
-    | .abort :: as => implActs f hs i as { m with s := m.s.emit (.aborted i), idx := hs.length }
+    | .abort :: as =>      -- `rp.index = len(rp.handlers)`
+      implActs f hs i as { m with s := m.s.emit (.aborted i), pos := hs.length + 1 }
     | .tryNext :: as =>
       match implNext f hs m with
       | .ok m' => implActs f hs i as m'
-      | .panic m' => implActs f hs i as { m' with s := recoverEffect m'.s, idx := hs.length }
+      | .panic m' => implActs f hs i as { m' with s := recoverEffect m'.s, pos := hs.length + 1 }
       | .fuel => .fuel
     | .wild p :: as =>
       if m.s.path.startsWith p then
@@ -224,7 +225,7 @@ def implActs (fuel : Nat) (hs : List Handler) (i : Nat) (acts : List Act) (m : I
         | r => r
       else
         let (s, pn) := notFoundEffect m.s
-        if pn then .panic { m with s := s } else .ok { m with s := s, idx := hs.length }   -- Abort(); return
+        if pn then .panic { m with s := s } else .ok { m with s := s, pos := hs.length + 1 }   -- Abort(); return
     | a :: as =>
       let (s, pn) := simpleAct a m.s
       if pn then .panic { m with s := s } else implActs f hs i as { m with s := s }
@@ -232,7 +233,7 @@ end
 
 /-- `Route.ServeHTTP`: `index = -1; rp.Next()` -/
 def execImpl (fuel : Nat) (hs : List Handler) (s : St) : Out St :=
-  match implNext fuel hs { s := s, idx := -1 } with
+  match implNext fuel hs { s := s, pos := 0 } with
   | .ok m => .ok m.s
   | .panic m => .panic m.s
   | .fuel => .fuel
